@@ -372,6 +372,19 @@ theorem e_log_client_version (s : Sys) (app side : String) (t : Time) (impl vers
         simp [bindArgs, evalArg, AppNamespace_log_client_version__insert_client_versions_0, List.lookup, SV.toCell,
           optStrSV, ofOptStr])
 
+theorem e_get_messages (s : Sys) (app mb : String) :
+    EntryAll "Mailbox_get_messages__select_messages_0" Mailbox_get_messages__select_messages_0 [.str app, .str mb] s := by
+  refine ⟨by simp [GenSql.all, List.lookup], rfl,
+    ((s.db.messagesOf app mb).mergeSort (fun a b => decide (a.rx ≤ b.rx))).map .msg,
+    by simp [stmtSem, getMessagesStmt], ?_⟩
+  have h := (get_messages_select s.db app mb).result
+  have hb : bindArgs Mailbox_get_messages__select_messages_0 [("self._app_id", .text app), ("self._mailbox_id", .text mb)]
+      = [.text app, .text mb] := by
+    simp [bindArgs, evalArg, Mailbox_get_messages__select_messages_0, List.lookup]
+  rw [hb] at h
+  simp only [List.map, SV.toCell, h, List.map_map]
+  congr 1
+
 /-! ### coverage -/
 
 /-- the statement names that have an entry theorem above -/
@@ -391,6 +404,6 @@ def tiedNames : List String := [
   "Mailbox_close__delete_mailbox_sides_0", "Mailbox_close__delete_mailboxes_0",
   "AppNamespace__summarize_nameplate_and_store__insert_nameplates_0",
   "AppNamespace__summarize_mailbox_and_store__insert_mailboxes_0",
-  "AppNamespace_log_client_version__insert_client_versions_0"]
+  "AppNamespace_log_client_version__insert_client_versions_0", "Mailbox_get_messages__select_messages_0"]
 
 end Wormhole.Tie
